@@ -17,6 +17,7 @@ import (
 	"slices"
 	"strings"
 	"sync"
+	"unicode"
 )
 
 // Equal reports whether two Go values representing JSON values are equal according
@@ -486,7 +487,7 @@ func fieldJSONInfo(f reflect.StructField) jsonInfo {
 		if name == "-" && !found {
 			return jsonInfo{omit: true}
 		}
-		if name != "" {
+		if name != "" && isValidTag(name) {
 			info.name = name
 		}
 		if len(rest) > 0 {
@@ -497,6 +498,26 @@ func fieldJSONInfo(f reflect.StructField) jsonInfo {
 		}
 	}
 	return info
+}
+
+// isValidTag reports whether s can be used as a JSON object key in a struct tag.
+// It is the rule of encoding/json, which ignores the name part of a tag that
+// does not satisfy it and falls back to the Go field name.
+func isValidTag(s string) bool {
+	if s == "" {
+		return false
+	}
+	for _, c := range s {
+		switch {
+		case strings.ContainsRune("!#$%&()*+-./:;<=>?@[]^_{|}~ ", c):
+			// Backslash and quote chars are reserved, but
+			// otherwise any punctuation chars are allowed
+			// in a tag name.
+		case !unicode.IsLetter(c) && !unicode.IsDigit(c):
+			return false
+		}
+	}
+	return true
 }
 
 // wrapf wraps *errp with the given formatted message if *errp is not nil.
